@@ -63,6 +63,14 @@ CHECKS = {
         text="Serial: depth 0..2 (3) x both coordinate systems x {png with an RGB sampler, npy F32, fits F32 bottom-up} x {clobber, update with an all-true filter, update of an earlier partial sampling by an overlapping, partly undefined one}: the set of tile files and all 65 536 pixels of every tile must equal sampler(reference pixel-centre coordinates of that tile) in display orientation (rows reversed on disk for FITS); depth 0 is the level-8 pixelisation of the whole sphere. Parallel: the real ToastSampler.visit_callback (clobber, and update mode with lock/read/write choice points) under the virtual scheduler, all interleavings, terminal tree = serial tree, no lock files.",
         note=_E1_NOTE + " Smooth float sampler compared to 2e-4 absolute; uint8 samples may differ by one count at <=6 pixels per tile. HEALPix samplers need healpy (absent). In the interleaving runs the pure coordinate function is memoised per tile.",
     ),
+    "C07": dict(
+        engine="bex",
+        category="exploration",
+        design_ref="5/C07",
+        technique="bounded-exhaustive enumeration of regions x tiles with a filter-independent per-pixel soundness oracle; boundary-directed deep-tile enumeration; end-to-end differential sampling",
+        text="A tile holds data iff one of its 65 536 reference pixel centres lies in the region; then the filter must accept it and every ancestor from level 1 and leave it unmodified. Boxes: 162 (1323) lat/lon boxes with origins from -3pi to 5pi, widths to 4pi and pole-touching bands x every tile to depth 3 (4) x both coordinate systems. Image footprints: a lattice of TAN images (1x1..64x64 incl. axes < 16 px, two scales, five rotations, both parities, centres on the seam, near both poles) with membership decided by the WCS, probed by the deep tiles (depth chosen so a tile spans 3 / 1 / 0.3 image pixels) containing points 0.02-0.45 pixel inside every edge and corner. Chunked maps: ragged chunk grids, per-chunk filter soundness and chunk-by-chunk vs whole-map sampling (pixels on a source-pixel boundary may resolve either way). End-to-end: sample_layer_filtered vs sample_layer directories identical.",
+        note="Reference geometry vt/ref/toastgeom.py; the compiled box test is exercised as built (no Cython). WCS distortions and the continuum between lattice points are not covered; quick tier walks a fixed 1/7 stride of the footprint lattice, thorough all of it.",
+    ),
     "C08": dict(
         engine="bex",
         category="exploration",
@@ -71,6 +79,14 @@ CHECKS = {
         text="Every (width, height) in 1..600 squared (1..1100 squared plus long strips to 2100 in thorough) goes through StudyTiling: layout against the reference (smallest power-of-two square, floor-centred), the rectangles of generate_populated_positions are pairwise disjoint, inside their tiles, cover exactly the image, match count_populated_positions and image_to_tile (every pixel for small images); sub-images of three parents on the tile-boundary lattice; real images of 16-100 sizes x up to 10 (mode, lossless format) pairs x both naming schemes are tiled and reassembled through the WTML URL template and compared pixel-exactly with the reference canvas (undefined outside the image, FITS rows reversed).",
         note="Reference model vt/ref/tiling.py from the statement. RGB/png cannot carry a mask: only colour inside the image is compared there.",
     ),
+    "C09": dict(
+        engine="vmp+bex",
+        category="model_checking",
+        design_ref="5/C09",
+        technique="exhaustive decomposition x parity x order x format enumeration of multi-TAN tiling against tiling the pasted mosaic + interleaving exploration of the tiling stage",
+        text="Mosaics 300x280, 257x300 (520x260) with a rotated TAN WCS are cut into 2-3 sub-images (cuts at 100/256/257, 10-pixel overlaps with agreeing data, 3-5 pixel NaN borders overlapping defined data of a neighbour, 3-way and L-shaped splits), stored bottom-up or top-down, in every input order, tiled to fits and npy: deepest-level tiles must be pixel-identical to StudyTiling.tile_image of the pasted mosaic, the ImageSet description equal, and no lock file may remain. The real multi-TAN stage with inputs sharing a tile runs under the virtual scheduler (queue, lock, read, write choice points): every terminal tree equals the serial tree.",
+        note=_E1_NOTE + " Mixed-parity collections are refused by toasty up front and are outside the check; inputs share one pixel grid.",
+    ),
     "C10": dict(
         engine="vmp",
         category="model_checking",
@@ -78,6 +94,14 @@ CHECKS = {
         technique="stateful exhaustive interleaving exploration of lock/read/write steps of concurrent update_image blocks",
         text="N=2..3 virtual processes run the real PyramidIO.update_image read-modify-write blocks (1-2 each, disjoint and overlapping regions, one or two tiles, both naming schemes, explicit format) over a virtual existence lock and tile-I/O layer in which lock-acquire, read, write-begin, write-end and release are choice points; all interleavings are explored. At every terminal state the tile must equal some serial order of the updates, no lock file may remain; any read or write overlapping an unfinished write of the same path is flagged at the step where it happens; deadlock and non-termination are detected on the state graph. A free-running run with real processes and the real SoftFileLock binds the lock model to reality.",
         note=_E1_NOTE + " SoftFileLock itself is modelled (existence lock), not verified.",
+    ),
+    "C11": dict(
+        engine="bex",
+        category="exploration",
+        design_ref="5/C11",
+        technique="exhaustive enumeration of map shapes x cells x constructed interior/boundary points x longitude shifts for each sampler variant",
+        text="For the five documented variants (sky centre-0, sky zero-right, planet centre-0, planet zero-left, Galactic) and every map shape in {1,2,3,4,5,16}^2 ({1..5,7,8,16,17}^2), scalar and RGB, every cell is probed at its centre and near each edge (must return that cell) and on its corners and edges (any adjacent cell), at longitude shifts of -2,-1,0,1,3 turns, with request shapes (1,1), (3,5), (256,256); Galactic points are constructed in Galactic coordinates and converted with astropy. Result shape, periodicity and absence of index errors are checked.",
+        note="The ecliptic sampler has no documented layout in the statement and is not covered.",
     ),
     "C12": dict(
         engine="bex",
@@ -110,6 +134,14 @@ CHECKS = {
         technique="exhaustive pattern enumeration for buffer ops + breadth-first search over operation histories on a tile directory against a reference dict",
         text="Buffers: all 8 modes x 4 slice-indexer kinds (full, sub-rectangle, negative-step rows to row 0 and inner) x all 2^6 source x 2^6 destination defined/undefined patterns for update, fill (plus pointwise integer-array indexers), clear, is_completely_masked and make_maskable_buffer against a per-pixel reference. Persistence: BFS over histories of a 9-operation alphabet (write defined A/B, partly undefined, all undefined; read default none/masked; update identity/region; stale file) to depth 3 (4) per (mode, lossless format, naming scheme) - 15 pairs x 2 - with the file-exists-iff-reference invariant and exact read-back checked after every step.",
         note="Format capability table fixed from the formats' definitions. Known finding: all-zero integer tiles are stored (see known_findings.json).",
+    ),
+    "C16": dict(
+        engine="bex",
+        category="exploration",
+        design_ref="5/C16",
+        technique="exhaustive enumeration of a linear-WCS lattice x image sizes, every pixel compared on the sky before/after the flip",
+        text="TAN (+SIN, CAR) WCS with 7 rotations, 3 scales, skew, both parities, 4 reference-pixel placements (inside, corner, two outside) and 3 reference values (RA~0, RA 359.9, near the south pole) x sizes 1x1..64x48 x {Image, ImageDescription}: parity sign negated, data rows reversed, every pixel's sky position equal to that of the row-mirrored pixel after the flip (1e-9 deg angular separation), double flip the identity, ensure_negative_parity yields -1 from both parities, idempotent and sky-preserving.",
+        note="Linear WCS only (no SIP/TPV).",
     ),
     "C17": dict(
         engine="bex",
